@@ -51,14 +51,11 @@ func (d *Document) Include(res Resource) {
 		}
 	} else if col, ok := d.Data.(Collection); ok {
 		// Check Collection
-		ctyp := col.GetType()
-		if ctyp.Name == res.GetType().Name {
-			for i := 0; i < col.Len(); i++ {
-				rkey := col.At(i).Get("id").(string) + " " + col.At(i).GetType().Name
+		for i := 0; i < col.Len(); i++ {
+			rkey := col.At(i).Get("id").(string) + " " + col.At(i).GetType().Name
 
-				if rkey == key {
-					return
-				}
+			if rkey == key {
+				return
 			}
 		}
 	}
